@@ -233,7 +233,13 @@ def _r2(ck: Checker, prog: Program):
         if len(cs) != 1:
             raise AnalysisError(f"{fq}: constructor call not found")
         dv, mv = kwarg(cs[0], "degrees_from_north"), kwarg(cs[0], "meta")
-        good = dv is not None and unparse(dv) == f"{src}.degrees_from_north" and mv is not None and unparse(mv) == f"{src}.meta"
+        from ..resolve import Resolver, canon
+        RR = Resolver(prog, f, inline=False)
+        at = cs[0]
+        while not isinstance(at, ast.stmt):
+            at = parent_of(at)
+        good = dv is not None and mv is not None and canon(RR.value(dv, at)) == canon(RR.expect(f"{src}.degrees_from_north")) \
+            and canon(RR.value(mv, at)) == canon(RR.expect(f"{src}.meta"))
         if good:
             ck.ok("C18.R2", fq, norm_key(cs[0], 100), detail="orientation and meta forwarded from the source")
         else:
